@@ -80,9 +80,9 @@ def _cases(tier, seed):
                     cs.append({'scen': 'op_history', 's': s})
     # shape level: routines that need a factorization (values are havoc): operands keep core list, core tensors and metadata
     SH = {'shim': 'shape', 'scalar_mode': 'A', 'logic': None, 'setup': {'factor_mode': 'havoc'}, 'max_paths': 250 if not th else 1500}
-    for name in ('round', 'round_rmax', 'reshape_merge', 'permute_rev', 'qtt_to_tens_all', 'dmrg_hadamard', 'dmrg_hadamard_guess', 'fast_matvec'):
-        for d in ((2,) if not th else (2, 3)):
-            for ttm in ((False, True) if name in ('round', 'round_rmax', 'permute_rev') else (False,)):
+    for name in ('round', 'round_rmax', 'reshape_merge', 'permute_rev', 'qtt_to_tens_all', 'dmrg_hadamard', 'dmrg_hadamard_guess', 'fast_matvec', 'norm_untracked'):
+        for d in ((2,) if not th else (2, 3)) + ((3,) if name == 'norm_untracked' and not th else ()):
+            for ttm in ((False, True) if name in ('round', 'round_rmax', 'permute_rev', 'norm_untracked') else (False,)):
                 ss = {'op': name, 'd': d, 'B': 2 if 'dmrg' in name or name == 'fast_matvec' else 3}
                 if ttm:
                     ss['ttm'] = True
